@@ -51,6 +51,32 @@ Definition unprotected_pair (multi : list string) (a b : fact) : bool :=
   conflicting a b && may_be_concurrent multi (f_role a) (f_role b) &&
   negb (share_lock a b).
 
+(* The same predicate written with [if] instead of [&&]: the VM evaluates both
+   arguments of [andb] before the call, so the version above costs a lock-set
+   comparison for every one of the n^2 pairs of facts; this one stops at the first
+   test that fails. [racy_fields] / [all_protected] compute with it, the proofs
+   use the readable one through [unprotected_pair_l_eq]. *)
+Definition unprotected_pair_l (multi : list string) (a b : fact) : bool :=
+  if String.eqb (f_field a) (f_field b) then
+    if racy_kinds (f_kind a) (f_kind b) then
+      if quiet_role (f_role a) then false
+      else if quiet_role (f_role b) then false
+      else if (if String.eqb (f_role a) (f_role b) then mem (f_role a) multi else true)
+           then negb (share_lock a b) else false
+    else false
+  else false.
+
+Lemma unprotected_pair_l_eq multi a b : unprotected_pair_l multi a b = unprotected_pair multi a b.
+Proof.
+  unfold unprotected_pair_l, unprotected_pair, conflicting, may_be_concurrent.
+  destruct (String.eqb (f_field a) (f_field b)); [|reflexivity].
+  destruct (racy_kinds (f_kind a) (f_kind b)); [|reflexivity].
+  destruct (quiet_role (f_role a)); [reflexivity|].
+  destruct (quiet_role (f_role b)); [reflexivity|].
+  destruct (String.eqb (f_role a) (f_role b)); cbn [negb andb orb];
+    destruct (mem (f_role a) multi); reflexivity.
+Qed.
+
 (* the fields that have at least one unprotected conflicting pair *)
 Fixpoint dedup (l : list string) : list string :=
   match l with
@@ -60,11 +86,11 @@ Fixpoint dedup (l : list string) : list string :=
 
 Definition racy_fields (multi : list string) (fs : list fact) : list string :=
   dedup (flat_map (fun a =>
-           if existsb (fun b => unprotected_pair multi a b) fs then [f_field a] else []) fs).
+           if existsb (fun b => unprotected_pair_l multi a b) fs then [f_field a] else []) fs).
 
 Definition all_protected (multi : list string) (fs : list fact) (skip : list string) : bool :=
   forallb (fun a => mem (f_field a) skip ||
-             forallb (fun b => negb (unprotected_pair multi a b)) fs) fs.
+             forallb (fun b => negb (unprotected_pair_l multi a b)) fs) fs.
 
 (* writes made while the only hold on some lock is a SHARED one (RLock): other
    RLock holders - possibly reaching the same data through another field, e.g.
@@ -81,3 +107,77 @@ Definition writes_under_rlock (fs : list fact) : list string :=
 (* the atomic-step report: every listed body is a single critical section *)
 Definition atomic_ok (r : list (string * string)) : bool :=
   forallb (fun p => String.eqb (snd p) "") r.
+
+(* ------------------------------------------------------------------ *)
+(* Second discipline (audit 2026-09-29). Differences from the first:
+   - no role is quiet except "init" (process start-up, before the first goroutine
+     of any other role exists); the translator no longer emits "unreached" (a
+     function no entry point reaches gets role "txn"), and "load" is an ordinary,
+     multi role;
+   - a conflicting pair on a field of a per-engine object (generation field) in
+     which one side is a "load" access and the other a "load" access or an access
+     of a consumer role is ordered by PUBLICATION (theories/C18/Publication.v), not
+     by a common lock: it is exempt here and discharged there. A load access
+     against a bg: role is NOT exempt. *)
+Definition quiet_role2 (r : string) : bool := String.eqb r "init".
+
+Definition may_be_concurrent2 (multi : list string) (r1 r2 : string) : bool :=
+  negb (quiet_role2 r1) && negb (quiet_role2 r2) &&
+  (negb (String.eqb r1 r2) || mem r1 multi).
+
+Definition is_load (r : string) : bool := String.eqb r "load".
+
+Definition pub_pair (gen cons : list string) (a b : fact) : bool :=
+  mem (f_field a) gen &&
+  ((is_load (f_role a) && (is_load (f_role b) || mem (f_role b) cons)) ||
+   (is_load (f_role b) && mem (f_role a) cons)).
+
+Definition unprotected_pair2 (multi gen cons : list string) (a b : fact) : bool :=
+  conflicting a b && may_be_concurrent2 multi (f_role a) (f_role b) &&
+  negb (share_lock a b) && negb (pub_pair gen cons a b).
+
+(* lazy form for computation, see [unprotected_pair_l] *)
+Definition unprotected_pair2_l (multi gen cons : list string) (a b : fact) : bool :=
+  if String.eqb (f_field a) (f_field b) then
+    if racy_kinds (f_kind a) (f_kind b) then
+      if quiet_role2 (f_role a) then false
+      else if quiet_role2 (f_role b) then false
+      else if (if String.eqb (f_role a) (f_role b) then mem (f_role a) multi else true)
+           then (if share_lock a b then false else negb (pub_pair gen cons a b))
+           else false
+    else false
+  else false.
+
+Lemma unprotected_pair2_l_eq multi gen cons a b :
+  unprotected_pair2_l multi gen cons a b = unprotected_pair2 multi gen cons a b.
+Proof.
+  unfold unprotected_pair2_l, unprotected_pair2, conflicting, may_be_concurrent2.
+  destruct (String.eqb (f_field a) (f_field b)); [|reflexivity].
+  destruct (racy_kinds (f_kind a) (f_kind b)); [|reflexivity].
+  destruct (quiet_role2 (f_role a)); [reflexivity|].
+  destruct (quiet_role2 (f_role b)); [reflexivity|].
+  destruct (String.eqb (f_role a) (f_role b)); cbn [negb andb orb];
+    destruct (mem (f_role a) multi); cbn [negb andb orb];
+    destruct (share_lock a b); reflexivity.
+Qed.
+
+Definition racy_fields2 (multi gen cons : list string) (fs : list fact) : list string :=
+  dedup (flat_map (fun a =>
+           if existsb (fun b => unprotected_pair2_l multi gen cons a b) fs then [f_field a] else []) fs).
+
+Definition all_protected2 (multi gen cons : list string) (fs : list fact) (skip : list string) : bool :=
+  forallb (fun a => mem (f_field a) skip ||
+             forallb (fun b => negb (unprotected_pair2_l multi gen cons a b)) fs) fs.
+
+(* the pairs handed over to the publication argument, by field (for the record) *)
+Definition publication_fields (multi gen cons : list string) (fs : list fact) : list string :=
+  dedup (flat_map (fun a =>
+           if existsb (fun b =>
+                if String.eqb (f_field a) (f_field b) then
+                  if racy_kinds (f_kind a) (f_kind b) then
+                    if may_be_concurrent2 multi (f_role a) (f_role b) then
+                      if share_lock a b then false else pub_pair gen cons a b
+                    else false
+                  else false
+                else false) fs
+           then [f_field a] else []) fs).
